@@ -42,7 +42,24 @@ func opConcat(fields []string) string {
 		r3 = safeRun(v2, text)
 	}
 	r4 := safeRun(v, text)
-	return "AST " + v.VerifAst() + "\tRES " + r1 + "\tAGAIN " + r2 + "\tRECOMPILED " + r3 + "\tAFTER " + r4 + "\tPARTS " + strings.Join(parts, "|")
+	// compilations are independent also of compilations that FAILED half way (state left behind by an early return)
+	for _, bad := range c13FailingSources {
+		safeCompile(bad)
+	}
+	r5 := "COMPILE"
+	if v3, _ := safeCompile(full); v3 != nil {
+		r5 = safeRun(v3, text)
+	}
+	return "AST " + v.VerifAst() + "\tRES " + r1 + "\tAGAIN " + r2 + "\tRECOMPILED " + r3 + "\tAFTER " + r4 + "\tAFTERFAIL " + r5 + "\tPARTS " + strings.Join(parts, "|")
+}
+
+// sources that fail after part of them has been processed: in the lexer, in the parser after regex groups /
+// subroutines / definitions were seen, in the semantic check, in the generator
+var c13FailingSources = []string{
+	"find all 'a' = v 'b' = v", "set g to pattern 'a'\nfind all g nosuchname", "find all \"abc", "find all @/(a)(b)(c)\\9/",
+	"set t to transform return 1 +\nfind all 'a'", "set q to pattern {'a' = z find all q", "find all @/(x)/ with 'y'",
+	// last: a parse error after two unnamed regex groups were numbered (nothing successful follows it)
+	"find all @/(x)(y/",
 }
 
 func init() {
@@ -145,6 +162,20 @@ func init() {
 			text := GenText(r, g.lits, 16)
 			cases = append(cases, Case{ID: fmt.Sprintf("k%d", i), Op: "concat",
 				Fields: []string{hx(strings.Join(defs, "\n")), strings.Join(cmds, ","), hx(text)}, Meta: map[string]string{}})
+		}
+		// fixed programs whose results depend on state the front end keeps while compiling (numbered regex groups)
+		for i, fx := range [][3]string{
+			{"", "find all @/(a)(b)/", "ab abab"},
+			{"", "find all @/(a)(b)\\2\\1/", "abba ab"},
+			{"set p to pattern @/(\\d)-\\1/", "find all p", "1-1 2-3 4-4"},
+			{"set p to pattern @/(x)(y)?/", "find all p 'z'|find all @/(q)/", "xyz xz q"},
+		} {
+			cmds := []string{}
+			for _, c := range strings.Split(fx[1], "|") {
+				cmds = append(cmds, hx(c))
+			}
+			cases = append(cases, Case{ID: fmt.Sprintf("kf%d", i), Op: "concat",
+				Fields: []string{hx(fx[0]), strings.Join(cmds, ","), hx(fx[2])}, Meta: map[string]string{}})
 		}
 		return cases
 	}
